@@ -16,7 +16,7 @@ RMenu == << [key |-> "200", how |-> "model"], [key |-> "201", how |-> "text"], [
 SeqsUpTo(menu, n) == UNION {[1..k -> {menu[j] : j \in 1..Len(menu)}] : k \in 0..n}
 \* responses: strictly increasing menu indices (a JSON object has distinct keys; order = document order)
 RespSeqs(n) == {[k \in 1..Len(ix) |-> RMenu[ix[k]]] : ix \in {q \in UNION {[1..k -> 1..Len(RMenu)] : k \in 0..n} : \A a, b \in 1..Len(q) : a < b => q[a] < q[b]}}
-BodySeq == <<"none", "json", "form", "multi", "octet", "json+unsup", "unsup", "badschema", "json+badschema", "noschema",
+BodySeq == <<"json+mpjson", "none", "json", "form", "multi", "octet", "json+unsup", "unsup", "badschema", "json+badschema", "noschema",
              "ref", "refchain", "refcycle", "refdangling">>
 MyBodies == {BodySeq[j] : j \in {k \in 1..Len(BodySeq) : k % Parts = Part /\ BodySeq[k] \in Bodies}}
 OpsU == [ps : SeqsUpTo(PMenu, MaxParams), pips : SeqsUpTo(PiMenu, 1), body : MyBodies, rs : RespSeqs(MaxResps), pathvar : BOOLEAN]
